@@ -21,6 +21,8 @@ pub fn curated() -> Vec<Vec<String>> {
         s(&["\u{1b}[1;32m"]), s(&["\u{1b}[0m", "m"]), s(&["\u{7f}", "\u{80}"]), s(&["\u{0}"]), s(&["a\u{0}b"]),
         s(&["I   \u{2665}\u{2665}\u{2665} 36 and \u{663} and y\u{306}y\u{306} and \u{1f4a9}\u{1f4a9}."]),
         s(&["ab", "abb", "a"]), s(&["b", "ab", "aab", "aaab"]), s(&["xyz", "xyzxyz", "xyzxyzxyz"]),
+        s(&["Z", "[", "\\"]), s(&["[", "\\", "]", "^"]), s(&["+", ",", "-"]), s(&["\t", "\n", "\u{b}"]), s(&["a.\u{e33}", "b"]), s(&["x+\u{1f3fb}"]), s(&["yes|\u{ff9e}no"]), s(&["\u{111c2}(", "("]),
+        s(&["((a((a((b((a((a((b"]), s(&["..a..a.b..a..a.b"]), s(&["aabaabaabaab"]), s(&["\\d\\d", "11"]),
     ];
     for m in crate::space::A_META {
         v.push(vec![m.to_string()]);
